@@ -21,7 +21,7 @@ T = {
  "C04": ("seqx", "exploration", "bounded exhaustive enumeration of argument type tuples x value alphabets against call-site formatting",
          "Every single/pair of argument types from the menu with every value of its alphabet is logged through the real frontend/backend and compared with fmtquill::format at the call site; originals destroyed before the backend runs.",
          "Type menu and value alphabets are finite; unordered containers compared as multisets; null C string normalised to empty.", "4/C04"),
- "C05": ("opx", "model_checking", "preemption-bounded exhaustive schedule enumeration with a virtual clock (stamp/enqueue split)",
+ "C05": ("opx+seqx", "model_checking", "preemption-bounded exhaustive schedule enumeration with a virtual clock (stamp/enqueue split); deterministic long histories over the limit grid on bounded and unbounded queues",
          "All schedules of stamp/enqueue/clock-advance/backend steps within the bound; output must be timestamp-ordered whenever every enqueue honoured the grace period.",
          "System clock virtualised by interposition; TSC not controllable; user clock outside the claim.", "4/C05"),
  "C06": ("opx+wmm", "model_checking", "preemption-bounded exhaustive schedule enumeration with a probe at the instant flush_log() returns; stateful DFS to closure at atomic-operation granularity over the real flush_log / BackendWorker::_poll",
@@ -36,7 +36,7 @@ T = {
  "C09": ("wmm+opx", "model_checking", "exhaustive enumeration of (history, consumed prefix, request size) on the real queues + end-to-end schedules",
          "Every drained terminal state of small histories followed by every request size up to capacity must be granted; end to end a blocked call returns within the horizon.",
          "Small capacities; liveness expressed as 'granted after the consumer drained and committed'.", "4/C09"),
- "C10": ("opx", "model_checking", "exhaustive enumeration of fault position x fault kind over histories, with schedule enumeration",
+ "C10": ("opx+seqx", "model_checking", "exhaustive enumeration of fault position x fault kind over histories, with schedule enumeration; exhaustive enumeration of write-failure positions inside the real file / JSON / rotating sinks and in backtrace replays",
          "Every placement of unformattable statements / throwing sinks in small histories; all other statements delivered once in order, backend alive, flush returns.",
          "As C03.", "4/C10"),
  "C11": ("seqx", "exploration", "bounded exhaustive enumeration of argument type tuples / macro families with allocation and formatter-thread monitors",
@@ -111,7 +111,7 @@ def main():
         "engines": [
             {"name": "wmm", "path": "engines/wmm", "serves_properties": ["C01", "C02", "C03", "C06", "C07", "C08", "C09", "C17", "C20"], "kind_free_text": "C++11 release/acquire view-based stateful explorer (atomic shim substituted by macro): h_queues over the real queue headers and ThreadContext counters; h_sys over the whole real frontend (registration, log_statement, flush_log, thread exit, logger removal, stop) and the real BackendWorker at atomic-operation granularity"},
             {"name": "opx", "path": "engines/opx", "serves_properties": ["C03", "C05", "C06", "C08", "C09", "C10", "C16", "C17", "C18", "C20"], "kind_free_text": "operation-level schedule explorer: real frontend threads + ManualBackendWorker, fork per execution, futex baton, virtual clock"},
-            {"name": "seqx", "path": "engines/seqx", "serves_properties": ["C03", "C04", "C11", "C12", "C13", "C14", "C15", "C16", "C17", "C18", "C19"], "kind_free_text": "bounded exhaustive enumeration / explicit-state BFS of sequential components against reference oracles"},
+            {"name": "seqx", "path": "engines/seqx", "serves_properties": ["C03", "C04", "C05", "C10", "C11", "C12", "C13", "C14", "C15", "C16", "C17", "C18", "C19"], "kind_free_text": "bounded exhaustive enumeration / explicit-state BFS of sequential components against reference oracles"},
             {"name": "crashx", "path": "engines/crashx", "serves_properties": ["C07"], "kind_free_text": "crash-point x fault x backend-progress x thread-order x flusher x buffering-limit enumeration in child processes"},
         ],
         "checks": checks,
